@@ -458,6 +458,11 @@ def run(ctx):
         check_serialization_scope(ctx, prog, tag)
         check_scalar_tables(ctx, prog, tag)
         check_json_autoescape(ctx, prog, tag)
+        # T9: the bridge treats the two string representations (heap / inline) alike: text goes in and comes out whatever
+        # its length (shared rule, C07.V13)
+        from .c07 import check_string_reprs
+        check_string_reprs(ctx, prog, tag, "C16.T9.string-representations-are-handled-alike",
+                           lambda f: f.loc.f.endswith(("value/deserialize.rs", "value/serialize.rs")) or "serde_core::ser::Serialize" in f.path)
         check_handle_registry(ctx, prog, tag)
         check_announced_lengths(ctx, prog, tag)
     # positive control
